@@ -337,6 +337,23 @@ def _limit_hits(fm: FuncModel, cn, limits: list[str]) -> set[str]:
 
 
 # ------------------------------------------------------------------------------------------ E4
+def _list_is_a_result(fm: FuncModel, x: ast.AST | None, at) -> list[str]:
+    """The list whose emptiness is the evidence must be the result of a search on every path: a default (`[]`, None)
+    that survives a failed search (an exception that was caught) would count as 'no attractor here'."""
+    if not isinstance(x, ast.Name):
+        return []
+    out = []
+    for d in fm.cfg.reaching_defs(x.id, at):
+        a = d.ast if d.kind == "stmt" else None
+        v = a.value if isinstance(a, (ast.Assign, ast.AnnAssign)) else None
+        if d.kind == "entry" or isinstance(v, ast.Call) or (isinstance(a, ast.Assign) and isinstance(a.targets[0], ast.Tuple)):
+            continue
+        if v is not None and (is_empty_list(v) or is_none(v)):
+            out.append(f"line {d.lineno}: `{x.id}` can still hold its default `{text(v)}` where its emptiness is tested (e.g. after "
+                       f"a failed search whose exception was caught): a failure would count as 'no attractor'")
+    return out
+
+
 def guard_value_ok(fm: FuncModel, e: ast.AST, at, prog, depth=0) -> list[str]:
     """`e` guards an empty-list mark: it must be an emptiness test of a candidate/seed list or False."""
     if depth > 4:
@@ -346,9 +363,9 @@ def guard_value_ok(fm: FuncModel, e: ast.AST, at, prog, depth=0) -> list[str]:
     if isinstance(e, ast.Compare) and len(e.ops) == 1 and isinstance(e.ops[0], ast.Eq) and \
             isinstance(e.left, ast.Call) and callee_name(e.left) == "len" and \
             isinstance(e.comparators[0], ast.Constant) and e.comparators[0].value == 0:
-        return []
+        return _list_is_a_result(fm, e.left.args[0] if e.left.args else None, at)
     if isinstance(e, ast.UnaryOp) and isinstance(e.op, ast.Not) and not isinstance(e.operand, (ast.Constant,)):
-        return []  # `not candidates`
+        return _list_is_a_result(fm, e.operand, at)  # `not candidates`
     if isinstance(e, ast.BoolOp) and isinstance(e.op, ast.And):
         out: list[str] = []
         evidence = 0
